@@ -190,7 +190,37 @@ def lower_L2(src, steps):
     replace_once(p, r"Error::SslError\(e\)", "{ ::std::mem::forget(e); Error::SslError(()) }", "L2 From<SslError> forgets source", steps)
 
 
-LOWERINGS = {"L2": lower_L2}
+def _cut_fn(txt, header_regex, what):
+    ms = list(re.finditer(header_regex, txt))
+    if len(ms) != 1:
+        raise Inconclusive("ENCODING-FAILED: lowering L4: `%s` occurs %d times" % (what, len(ms)))
+    i = txt.index("{", ms[0].end() - 1)
+    depth = 0
+    j = i
+    while True:
+        if txt[j] == "{":
+            depth += 1
+        elif txt[j] == "}":
+            depth -= 1
+            if depth == 0:
+                break
+        j += 1
+    return txt[ms[0].start():j + 1]
+
+
+def lower_L4(src, steps):
+    """L4: cut transmute_vec and fast_bitmap_transfer (text-identical) out of the GUI binary."""
+    txt = open(os.path.join(src, "src", "bin", "mstsc-rs.rs")).read()
+    a = _cut_fn(txt, r"pub unsafe fn transmute_vec<S, T>\([^)]*\) -> Vec<T> \{", "transmute_vec")
+    b = _cut_fn(txt, r"fn fast_bitmap_transfer\([^)]*\) -> RdpResult<\(\)>\s*\{", "fast_bitmap_transfer")
+    with open(os.path.join(src, "verif_harness", "gui_extracted.rs"), "w") as f:
+        f.write("// extracted by L4 from src/bin/mstsc-rs.rs\n" + a + "\n\n" + b + "\n")
+    steps.append("L4 extracted transmute_vec (%d bytes) and fast_bitmap_transfer (%d bytes) from src/bin/mstsc-rs.rs" % (len(a), len(b)))
+
+
+lower_L4.needed_for_build = True
+
+LOWERINGS = {"L2": lower_L2, "L4": lower_L4}
 
 
 # --------------------------------------------------------------------------
@@ -583,8 +613,9 @@ def check_property(prop, tier, seed, only=None):
                 subprocess.run(["cp", "-a", src, rsrc], check=True)
                 inject(rsrc, prop.inject, [])      # un-lowered: no L2..L5 value-changing lowerings
                 for l in prop.lowerings:
-                    if callable(l) and getattr(l, "needed_for_build", False):
-                        l(rsrc, [])
+                    lf = l if callable(l) else LOWERINGS[l]
+                    if getattr(lf, "needed_for_build", False):
+                        lf(rsrc, [])
             pj = run_kani_job(j, ksrc, tdir, logdir, playback=True)
             test = extract_playback_test(open(pj["log"], errors="replace").read())
             rep = native_replay(j, rsrc, test, logdir) if test else {"reproduced": False, "why": "no concrete playback produced"}
